@@ -75,10 +75,15 @@ def items(tier, seed):
             out.append({"k": "derived", "e": list(v), "order": rng.randrange(6)})
     for _ in range(120 if tier == "quick" else 600):
         out.append({"k": "two_cats", "e": [rng.randint(-3, 3), rng.randint(-3, 3), rng.randint(-2, 2)], "same_unit": rng.random() < 0.5})
+        out.append({"k": "two_cats", "e": [rng.randint(-3, 3), rng.randint(-3, 3), rng.choice([-2, -1, 1, 2])], "same_unit": len(out) % 3 != 0, "interleave": True})
     db = get_db("default")
     units = sorted(db.unit_to_unit_info)
     for i in range(0, len(units), 60):
         out.append({"k": "simple", "units": units[i:i + 60]})
+    for leg, cur in (("lbmole", "lbmol"), ("gmole", "gmol"), ("1000ft3/d", "Mcf/d"), ("Ns/m", "N.s/m"), ("M(m3)", "MMm3")):
+        out.append({"k": "legacy_derived", "leg": leg, "cur": cur})
+    for e_ in ((1, 1), (2, -1), (-1, 1), (1, -2)):
+        out.append({"k": "requalified_category", "e": list(e_)})
     out.append({"k": "derived", "e": [1, -1, -1], "order": 0, "canary": True})
     rng.shuffle(out)
     return out
@@ -168,11 +173,40 @@ def run(cfg, V):
                 "obj_names": (s.GetUnitName(), arr.GetUnitName()), "empty": [(e.GetUnit(), e.GetCategory(), e.GetQuantityType(), e.GetUnitName()) for e in (empty, empty2)],
                 "nonfinite": nonfinite, "str": str(s), "arr_repr": repr(arr), "arr_str": str(arr),
                 "formatted": s.GetFormatted()}
+    if k == "legacy_derived":
+        # arithmetic with an operand created through a legacy spelling renders exactly what the current spelling renders
+        strings = lambda qq: (qq.GetUnit(), qq.GetCategory(), qq.GetQuantityType(), qq.GetUnitName())  # noqa: E731
+        res = []
+        for sp in (cfg["leg"], cfg["cur"]):
+            s_ = Scalar(2.0, sp)
+            m_ = Scalar(1.0, "m")
+            res.append([strings(o.GetQuantity()) for o in (s_, s_ * m_, m_ * s_, 1.0 / s_, s_ * s_, m_ / s_, s_ / m_, (s_ * m_) / m_, Array([1.0], sp) * Array([1.0], "m"))])
+        return {"legacy": res[0], "current": res[1]}
+    if k == "requalified_category":
+        from .common import fresh_posc_db, pushed
+
+        sdb = fresh_posc_db()
+        e1, e2 = cfg["e"]
+        strings = lambda qq: (qq.GetUnit(), qq.GetCategory(), qq.GetQuantityType(), qq.GetUnitName())  # noqa: E731
+        with pushed(sdb):
+            sdb.AddCategory("c20x", "length")
+            (Scalar(1.0, "m", "c20x") * Scalar(1.0, "s")).GetQuantity().GetQuantityType(), sdb.GetCategoryQuantityType("c20x")  # the category is used as a length category
+            sdb.AddCategory("c20x", "time", override=True)  # ... and then re-registered for another quantity type
+            f1 = _power(Scalar(1.0, "s", "c20x"), e1)
+            f2 = _power(Scalar(1.0, "m", "length"), e2)
+            acc = (f1 if e1 > 0 else 1.0 / f1)
+            acc = acc * f2 if e2 > 0 else acc / f2
+            got = strings(acc.GetQuantity())
+        want_f = [("c20x", "time", "second", "s", e1), ("length", "length", "metre", "m", e2)]
+        return {"got": got, "want": (ref_units([(u_, e_) for _c, _q, _n, u_, e_ in want_f]), ref_makestr([(c_, e_) for c_, _q, _n, _u, e_ in want_f]),
+                                     ref_makestr([(q_, e_) for _c, q_, _n, _u, e_ in want_f]), ref_makestr([(n_, e_) for _c, _q, n_, _u, e_ in want_f]))}
     # repeated quantity type under two categories
     a, b, c = cfg["e"]
     u2 = "m" if cfg["same_unit"] else "cm"
     acc = None
     parts = [(Scalar(1.0, "m", "length"), a), (Scalar(1.0, u2, "depth"), b), (Scalar(1.0, "s"), c)]
+    if cfg.get("interleave"):
+        parts = [parts[0], parts[2], parts[1]]  # the two categories of one quantity type are NOT neighbours in the composing map
     for sc, ex in parts:
         if ex == 0:
             continue
@@ -203,6 +237,10 @@ def props(cfg, T, obs):
         return [("a simple quantity's strings are exactly its registered unit, category, quantity type and unit name; repr/str show them", obs["bad"] == [])]
     if obs.get("skip"):
         return []
+    if k == "legacy_derived":
+        return [("products, quotients and powers of an operand created through a legacy spelling render the strings of the current spelling", obs["legacy"] == obs["current"])]
+    if k == "requalified_category":
+        return [("after a category is re-registered for another quantity type, new derived quantities over it render its CURRENT quantity type", tuple(obs["got"]) == tuple(obs["want"]))]
     P = []
     joined = tuple((u, e) for u, e in obs["joined"])
     parsed = parse_unit(obs["unit"])
